@@ -19,7 +19,7 @@ from lib import core, sysrun
 ID = 'C03'
 COQ_CONE = ['Properties/C03.v']
 EXTRACT = 'Extract/C03Extract.v'
-DRIVER = 'ocaml/Flow_driver.ml'
+DRIVER = ['ocaml/Flow_driver.ml', 'ocaml/Flow_main.ml']
 MONITORS = ["mon_c03"]
 ASSUMPTIONS = [
     'which pull requests a queue evaluation selects is property C05; which statuses the build gate accepts is C06',
